@@ -5,6 +5,7 @@ k and a copy of the raw draws) and every `randrange`; the return value is record
 real downstream consumers (JointDegreeEmpirical, GCMAlgorithmFast).  Oracle: counting rules (exact)
 and chi-square of key frequencies against the normalised weights.
 """
+import numbers
 import random
 from collections import Counter
 
@@ -72,7 +73,7 @@ def check_sample(res, L, N, keys, sizes, tap, ctx, weights=None):
     if not isinstance(out, list) or len(out) != N:
         res.violate("wrong-length", got=(len(out) if hasattr(out, "__len__") else repr(out)), want=N, ctx=ctx); return None
     for v, e in enumerate(out):
-        if not (isinstance(e, tuple) and len(e) == T and all(isinstance(x, int) and not isinstance(x, bool) and x >= 0 for x in e)):
+        if not (isinstance(e, tuple) and len(e) == T and all(isinstance(x, numbers.Integral) and not isinstance(x, bool) and x >= 0 for x in e)):
             res.violate("entry-not-a-tuple-of-nonnegative-ints", index=v, entry=repr(e), ctx=ctx); return None
     col = [sum(e[i] for e in out) for i in range(T)]
     for i, s in enumerate(sizes):
